@@ -544,6 +544,16 @@ func (e *Engine) merge(ins []edgeIn) *State {
 func (e *Engine) totalHavoc(st *State) *State {
 	e.sc.n++
 	n := &State{comps: map[string]string{}, base: fmt.Sprintf("h%d", e.sc.n)}
+	// the lock state of the executing thread survives calls to unknown code (assumption, listed)
+	for c := range e.compSort {
+		if e.isLockGhost(c) {
+			n.comps[c] = e.get(st, c)
+		}
+	}
+	// local variables whose address never reaches unknown code keep their values
+	for _, lc := range e.localCells {
+		e.sc.assert("(= (select " + e.get(n, lc.comp) + " " + lc.ref + ") (select " + e.get(st, lc.comp) + " " + lc.ref + "))")
+	}
 	// keep the allocation watermark monotone
 	if a, ok := st.comps["alloc"]; ok {
 		na := e.sc.fresh("alloc", "Int")
@@ -788,6 +798,11 @@ func (fr *Frame) enterLoop(li *loopInfo, ins []edgeIn) (string, *State) {
 	e.scanBlocks(fr.fn, blocks, mi, map[*ssa.Function]bool{})
 	if mi.all {
 		st = e.totalHavoc(st)
+		for _, c := range sortedKeys(mi.comps) {
+			if !e.isLockGhost(c) {
+				e.havocComp(st, c)
+			}
+		}
 	} else {
 		for _, c := range sortedKeys(mi.comps) {
 			e.havocComp(st, c)
@@ -986,6 +1001,9 @@ func (fr *Frame) step(in ssa.Instruction, incoming map[*ssa.BasicBlock][]edgeIn,
 			fr.oblige("nil", "mapupdate("+fr.srcText(x.Pos(), fr.stableName(x.Map))+")", "(not (= "+m.T+" 0))")
 		}
 		dom, val := e.mapComps(mt)
+		if m.From != nil {
+			fr.lockCheck(Val{Src: m.From}, true)
+		}
 		fr.checkFrame(dom, m.T, "map")
 		d := e.get(cur.st, dom)
 		vv := e.get(cur.st, val)
@@ -1055,7 +1073,8 @@ func (fr *Frame) checkFrame(c, addr, what string) {
 		return
 	}
 	if strings.HasPrefix(c, "ghost$") {
-		// ghost writes are permitted by listing the ghost var
+		// ghost components are framed semantically at exit (ghostframe obligations), not per write
+		return
 	}
 	var alts []string
 	for _, m := range e.modTargets {
@@ -1157,6 +1176,15 @@ func (fr *Frame) value(v ssa.Value) Val {
 		pt := x.Type().(*types.Pointer).Elem()
 		r := fr.newRef("new$" + sanitize(x.Comment))
 		e.storeAt(cur.st, r, nil, pt, e.zero(pt))
+		if e.nonEscaping(x) {
+			comps := map[string]bool{}
+			e.compsOfStore(nil, pt, comps)
+			for c := range comps {
+				if strings.HasPrefix(c, "C$") {
+					e.localCells = append(e.localCells, localCell{c, r})
+				}
+			}
+		}
 		return Val{T: r, Ty: x.Type()}
 	case *ssa.BinOp:
 		return fr.binop(x)
@@ -1639,6 +1667,9 @@ func (fr *Frame) unop(x *ssa.UnOp) Val {
 			e.sc.assert(r)
 		}
 		v := Val{T: t, Ty: pt}
+		if a.Src != nil && a.Src.kind == "field" {
+			v.From = a.Src
+		}
 		fr.boundRef(v)
 		return v
 	case token.ARROW:
@@ -1831,4 +1862,92 @@ func (fr *Frame) stableName(v ssa.Value) string {
 		}
 	}
 	return "expr"
+}
+
+type localCell struct{ comp, ref string }
+
+// an Alloc is non-escaping if its address is only loaded from / stored to here and in closures that are
+// themselves only called directly or handed to functions the engine inlines
+func (e *Engine) nonEscaping(a *ssa.Alloc) bool {
+	if v, ok := e.escMemo[a]; ok {
+		return v
+	}
+	if e.escMemo == nil {
+		e.escMemo = map[ssa.Value]bool{}
+	}
+	e.escMemo[a] = false
+	ok := e.addrUsesLocal(a, 0)
+	e.escMemo[a] = ok
+	return ok
+}
+
+func (e *Engine) addrUsesLocal(v ssa.Value, depth int) bool {
+	if depth > 4 {
+		return false
+	}
+	refs := v.Referrers()
+	if refs == nil {
+		return false
+	}
+	for _, r := range *refs {
+		switch x := r.(type) {
+		case *ssa.DebugRef:
+		case *ssa.UnOp:
+			if x.X != v {
+				return false
+			}
+		case *ssa.Store:
+			if x.Addr != v || x.Val == v {
+				return false
+			}
+		case *ssa.MakeClosure:
+			fn := x.Fn.(*ssa.Function)
+			// the matching free variable must be used locally inside the closure
+			for i, b := range x.Bindings {
+				if b == v {
+					if i >= len(fn.FreeVars) || !e.addrUsesLocal(fn.FreeVars[i], depth+1) {
+						return false
+					}
+				}
+			}
+			if !e.closureStaysLocal(x) {
+				return false
+			}
+		default:
+			return false
+		}
+	}
+	return true
+}
+
+// the closure value is only called, deferred, or passed to a function that is inlined
+func (e *Engine) closureStaysLocal(mc *ssa.MakeClosure) bool {
+	refs := mc.Referrers()
+	if refs == nil {
+		return true
+	}
+	for _, r := range *refs {
+		switch x := r.(type) {
+		case *ssa.DebugRef:
+		case ssa.CallInstruction:
+			if _, isGo := x.(*ssa.Go); isGo {
+				return false
+			}
+			cc := x.Common()
+			if cc.Value == ssa.Value(mc) {
+				continue // direct call / defer
+			}
+			callee := cc.StaticCallee()
+			if callee == nil {
+				return false
+			}
+			sp := e.specs.Funcs[callee.String()]
+			if sp == nil || !sp.Attrs["inline"] {
+				return false
+			}
+		default:
+			return false
+		}
+	}
+	return true
 }
